@@ -29,6 +29,11 @@ DEFS = {"P": P, "PC": PC, "PD": PD, "PR": PR, "PF": PF, "PFR": PFR, "Rec": REC,
         "Adj": {"oneOf": [{"type": "object", "properties": {"t": {"type": "string", "enum": ["A"]}, "c": INT}, "required": ["t", "c"]},
                           {"type": "object", "properties": {"t": {"type": "string", "enum": ["B"]}, "c": STR}, "required": ["t", "c"]}]},
         "Unt": {"oneOf": [STR, INT, {"type": "array", "items": INT}]},
+        # adjacently tagged with a variant that has no content; two open objects that typify renders as a struct of flattened Options
+        "Adj3": {"oneOf": [{"type": "object", "properties": {"t": {"type": "string", "enum": ["A"]}, "c": INT}, "required": ["t", "c"]},
+                           {"type": "object", "properties": {"t": {"type": "string", "enum": ["B"]}, "c": {"type": "object", "properties": {"x": INT}, "required": ["x"]}}, "required": ["t", "c"]},
+                           {"type": "object", "properties": {"t": {"type": "string", "enum": ["C"]}}, "required": ["t"]}]},
+        "Flat2": {"allOf": [{"$ref": "#/definitions/P"}, {"type": "object", "properties": {"w": STR}, "required": ["w"]}]},
         "Se": {"type": "string", "enum": ["a", "b"]},
         "Te": {"type": "integer", "enum": [1, 2]},
         "Al": {"$ref": "#/definitions/P"},
@@ -106,6 +111,10 @@ KINDS = {
     "enum_ext": (ref("Ext"), ["U", {"N": 1}, {"S": {"x": 1}}], ["Z", {"N": "s"}], False),
     "enum_int": (ref("Int"), [{"t": "A", "x": 1}, {"t": "B"}, {"t": "A", "x": 1, "y": "s"}], [{"t": "Z"}, {"t": "A"}], False),
     "enum_adj": (ref("Adj"), [{"t": "A", "c": 1}, {"t": "B", "c": "s"}], [{"t": "A", "c": "s"}], False),
+    "enum_adj3": (ref("Adj3"), [{"t": "C"}, {"t": "A", "c": 1}, {"t": "B", "c": {"x": 1}}], [{"t": "C", "c": 1}, {"t": "B", "c": {"x": "s"}}, {"t": "A"}], False),
+    "allof_struct": (ref("Flat2"), [{"x": 1, "w": "s"}, {"x": 1, "w": "s", "y": "t"}], [{"x": 1}, {"w": "s"}, {"x": "s", "w": "s"}], False),
+    "tuple_unit": ({"type": "array", "items": [{"type": "null"}, INT], "minItems": 2, "maxItems": 2}, [[None, 1]], [[0, 1], [None]], False),
+    "struct_unit_member": ({"type": "object", "properties": {"u": {"type": "null"}, "n": INT}, "required": ["u", "n"]}, [{"u": None, "n": 1}], [{"u": 0, "n": 1}, {"n": 1}], False),
     "enum_unt": (ref("Unt"), ["s", 5, [1]], [True, {}], False),
     "alias": (ref("Al"), [{"x": 2}], [{"x": "s"}], False),
     "boxed": (ref("Rec"), [{}, {"r": {}}], [{"r": 5}], False),
@@ -115,7 +124,7 @@ KINDS = {
     "date": ({"type": "string", "format": "date"}, ["2020-02-29"], [], True),
 }
 QUICK_KINDS = ["bool", "u8", "i64", "nz32", "f64", "string", "str_max2", "str_enum", "opt_scalar", "opt_struct", "vec", "set", "map_int", "map_any", "map_key", "map_enum_key", "map_patprops", "map_key_len",
-               "tuple1", "tuple2", "struct", "struct_closed", "struct_renamed", "alias", "struct_req_nullable", "struct_nested_defaults", "struct_inline_defaults", "enum_inline_defaults", "struct_flat", "struct_flat_renamed", "struct_flat_renamed_inline", "enum_ext", "enum_int", "enum_adj", "enum_unt", "enum_ext_tuple", "enum_adj_tuple", "enum_unt_struct", "deny_list", "str_pattern",
+               "tuple1", "tuple2", "struct", "struct_closed", "struct_renamed", "alias", "struct_req_nullable", "struct_nested_defaults", "struct_inline_defaults", "enum_inline_defaults", "struct_flat", "struct_flat_renamed", "struct_flat_renamed_inline", "enum_ext", "enum_int", "enum_adj", "enum_adj3", "allof_struct", "tuple_unit", "struct_unit_member", "enum_unt", "enum_ext_tuple", "enum_adj_tuple", "enum_unt_struct", "deny_list", "str_pattern",
                "typed_enum", "boxed", "unit", "uuid"]
 
 
